@@ -45,6 +45,9 @@ def make_float_array(inp, msg: str):
     msg: str, error msg
     """
     try:
+        if np.iscomplexobj(inp) and np.any(np.imag(inp) != 0):
+            # numpy would drop the imaginary part with a warning
+            raise TypeError("complex values are not float compatible")
         inp_array = np.array(inp, dtype=float)
     except Exception as err:
         raise MagpylibBadUserInput(msg + f"{err}") from err
